@@ -29,7 +29,7 @@ static J case_json(const Case& c) {
 	if (c.file) j.set("src", "file").set("file", c.fname).set("shape", c.shapeIdx);
 	else
 		j.set("src", "built").set("kind", kind_id(c.spec.kind)).set("game", game_name(c.spec.game)).set("skinned", c.spec.skinned)
-			.set("locked", c.spec.locked).set("origin", c.reloaded ? "reloaded" : "api").set("V", c.V).set("mask", (int) c.mask);
+			.set("locked", c.spec.locked).set("eye", c.spec.eye).set("origin", c.reloaded ? "reloaded" : "api").set("V", c.V).set("mask", (int) c.mask);
 	J d = J::arr();
 	for (auto& s : c.dels) d.push(ints_json(s));
 	j.set("dels", d);
@@ -42,6 +42,7 @@ static bool case_from_json(const J& j, Case& c) {
 		if (!kind_from(j["kind"].str(), c.spec.kind) || !game_from(j["game"].str(), c.spec.game)) return false;
 		c.spec.skinned = j["skinned"].b;
 		c.spec.locked = j["locked"].b;
+		c.spec.eye = j["eye"].b;
 		c.reloaded = j["origin"].str() == "reloaded";
 		c.V = (int) j["V"].i64();
 		c.mask = (uint32_t) j["mask"].i64();
@@ -54,9 +55,9 @@ static bool case_from_json(const J& j, Case& c) {
 	return true;
 }
 
+static int g_eye_mode = 1; // 0: no eye-data configuration, 1: eye data checked in memory only, 2: also saved
 static void finish_spec(Spec& sp) {
 	sp.nbones = sp.skinned ? 3 : 0;
-	sp.eye = sp.kind == K_BSTRI && sp.game == G_SSE; // eye data only where a save does not rewrite it
 }
 static Mesh mesh_for(const Spec& sp, int V, uint32_t mask) {
 	Mesh m = make_mesh(V);
@@ -112,6 +113,7 @@ static NiShape* fresh(const Case& c, const Base& base, NifFile& nif, std::string
 
 static bool prepare_base(const Case& c, Base& base, std::string& err) {
 	if (base.ready) return true;
+	if (!c.file && c.spec.eye && g_eye_mode < 2 && !c.reloaded) { base.ready = true; return true; } // never saved, see run_case
 	if (c.file) base.bytes = vf::read_file(A.repo + "/tests/input/" + c.fname);
 	else if (c.reloaded) {
 		NifFile nif;
@@ -162,7 +164,8 @@ static uint64_t run_case(const Case& c, Base& base, Stats& st) {
 	NiShape* sh = fresh(c, base, nif, err);
 	if (!sh) { st.violation("harness:fresh:" + (c.file ? c.fname : c.spec.label()), "cannot obtain model: " + err, cj); return 0; }
 	std::string L = label_of(c, nif, sh);
-	auto V = [&](const std::string& what, const std::string& msg) { st.violation(L + ":" + what, L + ": " + msg, cj); };
+	std::set<std::string> said; // one report per key and case
+	auto V = [&](const std::string& what, const std::string& msg) { if (said.insert(what).second) st.violation(L + ":" + what, L + ": " + msg, cj); };
 
 	Snap s0 = snapshot(nif, sh);
 	std::vector<Problem> pre;
@@ -207,6 +210,7 @@ static uint64_t run_case(const Case& c, Base& base, Stats& st) {
 		if (s1.nv != keep.size()) V("vertex-count", vf::strf("%zu vertices expected after deleting, shape reports %u", keep.size(), s1.nv));
 		for (auto& kv : s0.attr) {
 			if (kv.second.size() != s0.nv) continue; // array did not agree with the counter before
+			st.add("attr_arrays_compared");
 			bool isw = kv.first == "weights" || kv.first == "skinweights";
 			std::string key = isw ? "weights-after-delete" : "attr-" + kv.first + "-after-delete";
 			static const std::vector<std::string> none;
@@ -244,6 +248,9 @@ static uint64_t run_case(const Case& c, Base& base, Stats& st) {
 
 		// save raw, reload, same geometry: a function of the state, evaluated once per distinct state of a construction
 		if (!fresh_state && !c.file && !g_check_all_steps) return h;
+		// Saving any BSTriShape that carries eye data runs into an int shift by 36 in VertexDesc::SetAttributeOffset
+		// (VertexData.hpp) whether or not vertices were deleted; the eye-data configuration is checked in memory.
+		if (!c.file && c.spec.eye && g_eye_mode < 2) { st.add("reload_skipped_eye_data"); return h; }
 		std::string bytes = save_raw(nif);
 		if (bytes.empty()) { V("save-fails", "Save returns an error after the deletion"); return h; }
 		NifFile r;
@@ -255,7 +262,9 @@ static uint64_t run_case(const Case& c, Base& base, Stats& st) {
 		Snap z = snapshot(r, rs);
 		if (z.nv != s1.nv) V("reload:vertex-count", vf::strf("%u vertices saved, %u after reload", s1.nv, z.nv));
 		for (auto& kv : s1.attr) {
-			if (kv.second.size() != s1.nv || base.rt_diff.count(kv.first)) continue;
+			if (kv.second.size() != s1.nv) continue;
+			if (base.rt_diff.count(kv.first)) { st.add("reload_attr_skipped_not_roundtrip_stable"); st.distinct("not_roundtrip_stable", L + ":" + kv.first); continue; }
+			st.add("reload_attr_arrays_compared");
 			auto it = z.attr.find(kv.first);
 			if (it == z.attr.end() || it->second != kv.second) {
 				size_t j = 0;
@@ -268,7 +277,7 @@ static uint64_t run_case(const Case& c, Base& base, Stats& st) {
 		std::vector<Problem> rp;
 		validity(r, rs, rp);
 		for (auto& p : rp)
-			if (!prekeys.count(p.key)) V("reload:invalid:" + p.key, "after save+reload: " + p.msg);
+			if (!prekeys.count(p.key) && !said.count("invalid:" + p.key)) V("reload:invalid:" + p.key, "after save+reload: " + p.msg);
 		return h;
 	}
 	return 0;
@@ -309,6 +318,12 @@ static std::vector<Spec> all_specs() {
 	add(K_SEGMENTED, G_SK);
 	add(K_LOD, G_SK);
 	add(K_BSTRI, G_SSE);
+	if (g_eye_mode > 0) {
+		Spec s;
+		s.kind = K_BSTRI; s.game = G_SSE; s.eye = true;
+		finish_spec(s);
+		v.push_back(s);
+	}
 	add(K_BSTRI, G_FO4);
 	add(K_BSDYN, G_SSE);
 	add(K_BSSUB, G_FO4);
@@ -387,6 +402,7 @@ int main(int argc, char** argv) {
 		return 0;
 	}
 	const bool thorough = A.thorough();
+	g_eye_mode = (int) A.geti("eye", 1);
 	const int vmax = (int) A.geti("vmax", thorough ? 6 : 5);
 	const int vmax_reloaded = (int) A.geti("vmaxreloaded", 5);
 	const bool with_files = A.geti("files", 1) != 0, with_built = A.geti("built", 1) != 0;
@@ -403,7 +419,7 @@ int main(int argc, char** argv) {
 		for (int V = vmax; V >= 3; V--)
 			for (auto& sp : specs)
 				for (int origin = 0; origin < 2; origin++) {
-					if (origin == 1 && V > vmax_reloaded) continue;
+					if (origin == 1 && (V > vmax_reloaded || (sp.eye && g_eye_mode < 2))) continue;
 					uint32_t nm = 1u << pool_size(sp, V);
 					for (uint32_t lo = 0; lo < nm; lo += 8) {
 						Unit u;
@@ -463,13 +479,14 @@ int main(int argc, char** argv) {
 		}, top);
 
 	top.set_info("rule",
-		vf::strf("constructed shapes: %zu configurations (geometry kind x game x skinned/static x LOCKEDNORM yes/no) x origin {built through the API, built+saved+reloaded} "
+		vf::strf("constructed shapes: %zu configurations (geometry kind x game x skinned/static x LOCKEDNORM yes/no, plus one SSE BSTriShape with eye data checked in memory only) "
+				 "x origin {built through the API (V<=%d), built+saved+reloaded (V<=%d%s)} "
 				 "x V in 3..%d vertices x every subset of the triangle pool below V (1/2/4/6 triangles; strip kinds: every subset of 3/4 strips) "
 				 "x every non-empty sorted subset S1 of the vertices x (stop | every non-empty subset S2 of the remainder); "
 				 "sample files: every shape of tests/input/*.nif (%ld shapes with vertices) x {%s singletons, prefixes and suffixes of length 1-3, all vertices}; "
-				 "each history replayed on a fresh model, last deletion checked against the reference model, then Save(raw)+Load compared; "
+				 "each history replayed on a fresh model, last deletion checked against the reference model; Save(raw)+Load compared once per distinct state of a construction (every case for sample files); "
 				 "states = distinct canonical states (geometry, skin tables, segments, locked list) per construction",
-				 specs.size(), vmax, file_shapes, thorough ? "all" : "first/last 3 and every ceil(V/24)-th of the"));
+				 specs.size(), vmax, std::min(vmax, vmax_reloaded), thorough ? "" : ", second deletion singletons only", vmax, file_shapes, thorough ? "all" : "first/last 3 and every ceil(V/24)-th of the"));
 	top.set_info("vmax", vmax);
 	top.set_info("configurations", (long long) specs.size());
 	vf::finish(top);
